@@ -110,6 +110,7 @@ func c17Etcd(rc *corepkg) {
 	runOn(rc, 0, "c17-etcd", func() {
 		// ---- stores with weights
 		wantStores := map[uint64]string{}
+		weightEvery := []int{4, 1, 2}[rc.Knob("weight_density", 3)] // every 4th store, every store, every 2nd
 		for _, id := range idSet(rc, nStores, "store") {
 			meta := &metapb.Store{Id: id, Address: fmt.Sprintf("s%d:1", id)}
 			if s.Choose(3, "st.direct") == 0 || nStores > 120 {
@@ -119,7 +120,7 @@ func c17Etcd(rc *corepkg) {
 				return
 			}
 			lw, rw := 1.0, 1.0
-			if s.Choose(4, "st.weight") == 0 {
+			if s.Choose(weightEvery, "st.weight") == 0 {
 				lw, rw = float64(1+s.Choose(9, "lw"))/2, float64(1+s.Choose(9, "rw"))/4
 				if err := st.SaveStoreWeight(id, lw, rw); err != nil {
 					rc.Anomaly("save weight: %v", err)
